@@ -37,7 +37,7 @@ BUILDERS = {
     "minor_sixth": "m6", "major_sixth": "M6", "dominant_sixth": "67", "sixth_ninth": "69",
     "minor_ninth": "m9", "major_ninth": "M9", "dominant_ninth": "9", "dominant_flat_ninth": "7b9",
     "dominant_sharp_ninth": "7#9", "eleventh": "11", "minor_eleventh": "m11", "minor_thirteenth": "m13",
-    "major_thirteenth": "M13", "dominant_thirteenth": "13", "suspended_triad": "sus",
+    "major_thirteenth": "M13", "major_eleventh": "M11", "dominant_thirteenth": "13", "suspended_triad": "sus",
     "suspended_second_triad": "sus2", "suspended_fourth_triad": "sus4", "suspended_seventh": "sus47",
     "suspended_fourth_ninth": "sus4b9", "augmented_major_seventh": "M7+", "augmented_minor_seventh": "m7+",
     "dominant_flat_five": "7b5", "lydian_dominant_seventh": "7#11", "hendrix_chord": "hendrix",
